@@ -653,7 +653,10 @@ class ArgumentParser(ParserDeprecations, ActionsContainer, ArgumentLinking, argp
         """
         fpath = Path(cfg_path, mode=get_config_read_mode())
         with change_to_path_dir(fpath):
-            cfg_str = fpath.get_content()
+            try:
+                cfg_str = fpath.get_content()
+            except UnicodeDecodeError as ex:
+                self.error(f"Problems reading config file {cfg_path!r}: {ex}", ex)
             parsed_cfg = self.parse_string(
                 cfg_str,
                 os.path.basename(cfg_path),
